@@ -6,6 +6,7 @@ import Srctools.Model.C14Kv2
 import Srctools.Proofs.C14Kv2Main
 import Srctools.Proofs.C14Kv2Order
 import Srctools.Proofs.C14Kv2Iso
+import Srctools.Proofs.C14Text
 import Srctools.Props.C02
 /-!
 # C14 — DMX export/parse preserves the element graph (binary and KeyValues2), KV1 bridge
@@ -375,6 +376,34 @@ theorem C14_kv2_current (cfold : Char → List Char)
       (Kv2.order g flat).head? = some 0 :=
   C14_kv2 _ _ C14_gen_kv2_tables.1 C14_gen_kv2_tables.2.1 C14_gen_kv2_tables.2.2.1
     C14_gen_kv2_tables.2.2.2 cfold hf g flat cull hne hwf hu hnest
+
+/-! ## (iv) text forms of the integer / fixed-format value types
+
+These conversions (`TYPE_CONVERT[t, STRING]` / `TYPE_CONVERT[STRING, t]` for `int`, `bool`, `color`,
+`binary`) are inside the model, so for these types the text values of `C14_kv2` are *values*.
+What remains an assumption about the implementation is only CPython's float formatting
+(`float`, `time`, vectors, `qangle`, `quaternion`, `vmatrix`): their text is carried as a canonical
+string, i.e. a fixed point of `format(x, '.6f')`-and-strip / `repr` followed by `float()`. -/
+
+/-- OBLIGATION: `BOOL_LOOKUP` maps `"0"` to False and `"1"` to True. -/
+theorem C14_gen_bool : Text.boolOK Gen.Dmx.tables = true := by decide
+
+/-- **int**: `int(str(i)) = i` for every integer. -/
+theorem C14_text_int (i : Int) : Text.parseInt (Text.fmtInt i) = some i := Text.parseInt_fmtInt i
+
+/-- **bool**: `BOOL_LOOKUP[bool_as_int(b).casefold()] = b`. -/
+theorem C14_text_bool (T : Tables) (hT : Text.boolOK T = true) (fold : Str → Str)
+    (h0 : fold ['0'] = ['0']) (h1 : fold ['1'] = ['1']) (b : Bool) :
+    Text.parseBool T fold (Text.fmtBool b) = some b := Text.parseBool_fmtBool T hT fold h0 h1 b
+
+/-- **color**: `"r g b a"` is split, parsed and clamped back to the four bytes. -/
+theorem C14_text_color (r g b a : Nat) (hr : r ≤ 255) (hg : g ≤ 255) (hb : b ≤ 255) (ha : a ≤ 255) :
+    Text.parseColor (Text.fmtColor r g b a) = some (r, g, b, a) :=
+  Text.parseColor_fmtColor r g b a hr hg hb ha
+
+/-- **binary**: `bytes.fromhex(b.hex(' ', 1).upper()) = b` for every byte string. -/
+theorem C14_text_binary (bs : Bytes) : Text.parseHex (Text.fmtHex bs) = some bs :=
+  Text.parseHex_fmtHex bs
 
 /-! ## history independence -/
 
